@@ -162,7 +162,7 @@ func c04GenRequests(t *rapid.T, services []vfSvcSpec) []c04Req {
 		}
 	}
 	hosts = append(hosts, "", "localhost", "a", "127.0.0.1", "127.0.0.1:80", "[::1]", "[::1]:8080", "zz.example.com", "a.:80")
-	paths = append(paths, "/", "/x", "//", "/api", "/apiary", "/api/", "/ap", "/api/v1/a/b")
+	paths = append(paths, "/", "/x", "//", "/api", "/apiary", "/api/", "/ap", "/api/v1/a/b", "" /* absolute-form request line without a path */)
 	n := rapid.IntRange(4, 30).Draw(t, "nreq")
 	out := make([]c04Req, n)
 	for i := range out {
@@ -176,7 +176,7 @@ func c04GenRequests(t *rapid.T, services []vfSvcSpec) []c04Req {
 			h = rapid.SampledFrom(hosts).Draw(t, "rhost-pick")
 		}
 		p := rapid.SampledFrom(paths).Draw(t, "rpath-pick")
-		if !strings.HasPrefix(p, "/") {
+		if p != "" && !strings.HasPrefix(p, "/") {
 			p = "/" + p
 		}
 		out[i] = c04Req{Host: h, Path: p}
@@ -212,7 +212,7 @@ func vfFastTargetOptions() TargetOptions {
 func vfDeploySpec(r *Router, s vfSvcSpec, target string) error {
 	opts := ServiceOptions{Hosts: append([]string(nil), s.Hosts...), PathPrefixes: append([]string(nil), s.Prefixes...), TLSRedirect: true}
 	opts.Normalize() // what the CLI does before sending the command
-	return r.DeployService(s.Name, []string{target}, opts, vfFastTargetOptions(), 5*time.Second, time.Second)
+	return vfDeploy(r, s.Name, []string{target}, opts, vfFastTargetOptions(), 5*time.Second, time.Second)
 }
 
 func c04Run(t *testing.T, p c04Plan) (res vfResult) {
@@ -244,7 +244,7 @@ func c04Run(t *testing.T, p c04Plan) (res vfResult) {
 				res.failf("deploy-error", "router2: detour deploy failed: %v", err)
 				return
 			}
-			if err := r2.RemoveService("extra"); err != nil {
+			if err := vfRemove(r2, "extra"); err != nil {
 				res.failf("deploy-error", "router2: detour remove failed: %v", err)
 				return
 			}
@@ -284,7 +284,7 @@ func c04Run(t *testing.T, p c04Plan) (res vfResult) {
 		}
 		if r2Extra {
 			// removed only after everything else is in place
-			if err := r2.RemoveService("extra"); err != nil {
+			if err := vfRemove(r2, "extra"); err != nil {
 				res.failf("deploy-error", "router2: detour remove failed: %v", err)
 				return
 			}
